@@ -45,8 +45,8 @@ def run(ctx):
                                          alphabet_pool=("A01", "Am201", "A01e6", "A3210", "A001"),
                                          n_seeded=1, n_seeded_thorough=None if i == 0 else 2,
                                          rs_thorough=(1.05, 1.5, 2.0, 3.5, 8.0) if i == 0 else (2.0, 3.5),
-                                         depths_quick=(7, 6, 5, 4, 4), depths_thorough=(9, 8, 7, 6, 5),
-                                         long_runs=(i == 0))
+                                         depths_quick=(7, 6, 5, 4, 4), depths_thorough=(8, 8, 7, 6, 5),
+                                         long_runs=(i == 0), extras=(i == 0 or not ctx.thorough))
         ctx = type(ctx)(ctx.tier, ctx.seed + 1)
     res, agg = solverexp.execute(tasks)
     s = agg["summary"]
